@@ -84,7 +84,10 @@ __CPROVER_ensures(__CPROVER_return_value == NULL || __CPROVER_is_fresh(__CPROVER
 #define C13_BYTE(i, c) ((i) < bstr_len(input) && C13_D[(i)] == (c))                  /* guarded read */
 
 int contract_htp_parse_uri(bstr *input, htp_uri_t **uri)
-__CPROVER_requires(RO_BSTR(input) && __CPROVER_is_fresh(uri, sizeof(*uri)))
+/* the input object has the CONSTANT capacity VCAP and a symbolic length <= VCAP: a symbolic-size object makes the
+ * splitter's pointer differences (m - data - start) explode in the propositional encoding */
+__CPROVER_requires(__CPROVER_is_fresh(input, sizeof(bstr) + VCAP) && input->realptr == NULL && input->size == VCAP && input->len <= VCAP)
+__CPROVER_requires(__CPROVER_is_fresh(uri, sizeof(*uri)))
 __CPROVER_requires(g_c13_prealloc ? (__CPROVER_is_fresh(*uri, sizeof(htp_uri_t)) && (*uri)->scheme == NULL && (*uri)->username == NULL &&
                                      (*uri)->password == NULL && (*uri)->hostname == NULL && (*uri)->port == NULL && (*uri)->path == NULL &&
                                      (*uri)->query == NULL && (*uri)->fragment == NULL)
